@@ -210,6 +210,28 @@ def q_mol_sd(c, A, ctx):
     return c.molecule_shape_descriptors(mols[A["mol_i"] % len(mols)], l_max=2, radius=A["r"])
 
 
+# ---- how an answer is *read* (applied when the answer is normalised, which
+# for deferred inspection is later than the call): the documented members of
+# the per-site tables are accessed by key, as a user would
+ATOM_TABLE_KEYS = ("asym_atom", "frac_pos", "cart_pos", "element", "symop", "label", "occupation")
+
+
+def read_atom_table(d):
+    out = dict(d.items()) if hasattr(d, "items") else d
+    if isinstance(out, dict):
+        for k in ATOM_TABLE_KEYS:
+            try:
+                out[k] = d[k]
+            except KeyError:
+                pass
+    return out
+
+
+READERS = {"uc_atoms": read_atom_table, "slab": read_atom_table, "air": read_atom_table}
+# queries whose answer may be held and only read later (they hand out library-owned objects)
+DEFERRABLE = ["uc_atoms", "slab", "conn", "uc_mols", "sym_mols", "mol_dict", "air", "asur", "menv", "as_P1", "supercell"]
+
+
 # ---- the same three queries issued with non-default keyword arguments. They
 # are only ever asked of handles created as "keyword" crystals, which in turn
 # never receive a default-argument query that builds the bond graph: every
